@@ -151,6 +151,19 @@ CLAIMED = {
              'Misuses that are single static_asserts outside the clause chain (value from matcher, moving a non-movable mock, deathwatched without '
              'virtual destructor, MAKE_MOCKn arity) are covered by the shipped programs.',
         technique='Lean 4 proof over regenerated static_assert/macro tables (translator) + compile-farm validation'),
+    'C20': dict(
+        text='Theorems (any number of CO_YIELD clauses, lazy and eager start): pulling from the coroutine of an accepted call yields the CO_YIELD '
+             'values in declaration order up to the first throwing clause, then the CO_RETURN value / plain completion / exception, then `done` '
+             '(coro_values_lazy, coro_values_eager via advance_spec, pulls_spec); the call itself is counted, runs the SIDE_EFFECT and evaluates no '
+             'CO_ clause (lazy) or exactly the first (eager) (coro_call_time); no exception reaches the caller of the mock function, it is an item of '
+             'a pull (coro_throw_at_await); every call gets its own cursor, so coroutines of one expectation are independent under any interleaving '
+             '(coro_independent). Known finding F12 (parameters of the call are dead when deferred clauses run) is excluded by hypothesis and '
+             'reported as KNOWN-FINDING while it reproduces.',
+        ref='DESIGN.md §4 C20', engine='lean-coro',
+        note='Trusted: Lean kernel; axioms propext/Classical.choice/Quot.sound; statements in Props/C20.lean; the promise types of the harness '
+             '(lazy/eager pullers, value/void completion) and g++ 12.2 coroutine codegen; matching/counting/sequence checks at call time are the '
+             'World model (C01-C08), only counting and the SIDE_EFFECT are re-observed here.',
+        technique='Lean 4 proof (resumable machine vs specification list, induction over pulls) + model/implementation correspondence'),
 }
 
 ALL = ['C%02d' % i for i in range(1, 21)]
@@ -183,6 +196,8 @@ def main():
                    baseline_off_cmd='cmake --build /repo/_build -j16 && /repo/_build/test/self_test',
                    source_commits=[], add_only=True),
         engines=[
+            dict(name='lean-coro', path='lean/TrompModel/Model/Coro.lean', serves_properties=['C20'],
+                 kind_free_text='Lean 4 model of co_return_handler_t::call as a resumable machine + theorems (Props/C20.lean); harness/coro (C++20)'),
             dict(name='lean-gen', path='tools/translate.py', serves_properties=['C09', 'C19'],
                  kind_free_text='translator regenerating lean/TrompModel/Gen/{StaticAsserts,Macros}.lean from /repo; theorems in Props/C09, C19; '
                                 'tools/farm.py and tools/argsfarm.py compile/run generated programs'),
